@@ -1512,7 +1512,7 @@ func (a area) Run(c *core.Ctx) error {
 		c.Begin(i)
 		rng := c.Rng(i)
 		kind := caseKind(i, c.Tier, rng)
-		dir, err := scratch(kind == "pages" || kind == "index-pages-many")
+		dir, err := scratch(kind == "pages" || kind == "pages-reopen" || kind == "index-pages-many")
 		if err != nil {
 			return err
 		}
@@ -1536,6 +1536,8 @@ func (a area) Run(c *core.Ctx) error {
 				s.witnessStopRecreate()
 			case "pages":
 				s.casePages(rng, i)
+			case "pages-reopen":
+				s.casePagesReopen(rng)
 			case "index-pages":
 				s.caseIndexPages(rng)
 			case "index-pages-many":
@@ -1619,9 +1621,14 @@ func caseKind(i int, tier string, rng *rand.Rand) string {
 		return "woken-fixed"
 	case 14:
 		return "rewind-fixed"
+	case 15:
+		return "pages-reopen"
 	}
 	if tier == "thorough" && i%40 == 7 {
 		return "pages"
+	}
+	if tier == "thorough" && i%80 == 27 {
+		return "pages-reopen"
 	}
 	switch r := rng.Intn(100); {
 	case r < 10:
